@@ -611,18 +611,30 @@ func nativeSelftest(g *Group, samples []AgreeSample) (int, []string) {
 	if g.Dir == "." {
 		pat = "."
 	}
-	cmd := exec.Command("go", "test", "-vet=off", "-count=1", "-timeout", "300s", "-v", "-run", "^TestVerifSelftest$", "-overlay", ovp, pat)
-	cmd.Dir = repoDir
-	cmd.Env = append(goEnv(), "VERIF_SELFTEST="+sp)
-	out, _ := cmd.CombinedOutput()
 	got := map[int]string{}
-	for _, l := range strings.Split(string(out), "\n") {
-		if strings.HasPrefix(l, "VSELF ") {
-			f := strings.SplitN(l, " ", 3)
-			if n, err := strconv.Atoi(f[1]); err == nil && len(f) == 3 {
-				got[n] = f[2]
+	var out []byte
+	for attempt := 0; attempt < 2 && len(got) == 0; attempt++ {
+		cmd := exec.Command("go", "test", "-vet=off", "-count=1", "-timeout", "600s", "-v", "-run", "^TestVerifSelftest$", "-overlay", ovp, pat)
+		cmd.Dir = repoDir
+		cmd.Env = append(goEnv(), "VERIF_SELFTEST="+sp)
+		out, _ = cmd.CombinedOutput()
+		for _, l := range strings.Split(string(out), "\n") {
+			if strings.HasPrefix(l, "VSELF ") {
+				f := strings.SplitN(l, " ", 3)
+				if n, err := strconv.Atoi(f[1]); err == nil && len(f) == 3 {
+					got[n] = f[2]
+				}
 			}
 		}
+	}
+	if len(got) == 0 {
+		// the native run itself did not happen (build problem, machine overloaded):
+		// nothing was compared, which is reported but is not a disagreement
+		tail := string(out)
+		if len(tail) > 300 {
+			tail = tail[len(tail)-300:]
+		}
+		return -1, []string{"native selftest run produced no results: " + strings.ReplaceAll(tail, "\n", " / ")}
 	}
 	agreed := 0
 	var bad []string
@@ -831,7 +843,7 @@ func cmdRun(args []string) int {
 
 	// translator validation: sampled explored paths must behave the same natively
 	agreeN, agreeOK := 0, 0
-	var agreeBad []string
+	var agreeBad, agreeNotes []string
 	if !*noSelftest {
 		byGroup := map[*Group][]AgreeSample{}
 		var order []*Group
@@ -846,9 +858,16 @@ func cmdRun(args []string) int {
 		}
 		for _, g := range order {
 			ok, bad := nativeSelftest(g, byGroup[g])
+			if ok < 0 {
+				agreeNotes = append(agreeNotes, bad...)
+				continue
+			}
 			agreeN += len(byGroup[g])
 			agreeOK += ok
 			agreeBad = append(agreeBad, bad...)
+		}
+		for _, n := range agreeNotes {
+			fmt.Fprintln(os.Stderr, "  translator validation:", n)
 		}
 		fmt.Fprintf(os.Stderr, "  translator validation: %d sampled paths replayed natively, %d agree\n", agreeN, agreeOK)
 	}
@@ -1045,7 +1064,7 @@ func cmdRun(args []string) int {
 				"known_findings":      len(knownPrinted),
 				"translator_validation": map[string]interface{}{
 					"what":          "explored paths turned into concrete inputs (a model of the path condition) and replayed natively with go test -overlay against the real build: each must return normally and witness the same reach labels in the same order as the executor saw",
-					"sampled_paths": agreeN, "agreed": agreeOK, "disagreements": agreeBad},
+					"sampled_paths": agreeN, "agreed": agreeOK, "disagreements": agreeBad, "not_run": agreeNotes},
 			}}
 		if ev.Assumptions == nil {
 			ev.Assumptions = []string{}
